@@ -71,6 +71,47 @@ Proof.
 Qed.
 Print Assumptions C19_registry_sized.
 
+(** ** on a stream: length framing (msgs::write / write_vec, msgs::read, read_message::<T>)
+    The frame is u32 length + payload; msgs::write must produce frame (as_vec m) (compared on
+    every run).  Unframing a frame followed by anything gives the payload and exactly that
+    rest. *)
+Theorem C19_frame :
+  forall p rest, lenN p < 4294967296 -> unframe (frame p ++ rest) = Some (p, rest).
+Proof. exact frame_roundtrip. Qed.
+Print Assumptions C19_frame.
+
+(** Any number of messages written back to back are read back one by one as the same
+    messages, and what follows them on the stream is left untouched. *)
+Theorem C19_framed_stream :
+  forall B : blob_ops, blob_laws B -> forall (ms : list (msg B)) rest,
+    (forall m, In m ms -> wf_msg B m = true /\ lenN (as_vec B m) <= MAX_MESSAGE_SIZE) ->
+    read_stream MAX_MESSAGE_SIZE (table B) (length ms)
+                (concat (map (fun m => frame (as_vec B m)) ms) ++ rest)
+    = Some (map Known ms, rest).
+Proof.
+  intros B HB ms rest H. apply read_stream_frames; [reflexivity|].
+  intros m Hin. destruct (H m Hin) as [Hw Hs]. apply C19_registry; assumption.
+Qed.
+Print Assumptions C19_framed_stream.
+
+(** read_message::<T> on T's own frame: for every message there is its arm's decoder, under
+    its own id, that reads the frame back and leaves the rest. *)
+Theorem C19_read_message :
+  forall B : blob_ops, blob_laws B -> forall (m : msg B) rest,
+    wf_msg B m = true -> lenN (as_vec B m) <= MAX_MESSAGE_SIZE ->
+    exists e, In e (table B) /\ e_id e = msg_id B m /\
+      read_typed MAX_MESSAGE_SIZE (e_id e) (e_dec e) (frame (as_vec B m) ++ rest) = Some (m, rest).
+Proof.
+  intros B HB m rest Hw Hs. destruct (table_complete B HB m Hw) as (Hid & e & Hin & He & Hd).
+  exists e. split; [exact Hin|]. split; [exact He|]. unfold as_vec, as_vec_of in *. rewrite He.
+  apply (read_typed_frame MAX_MESSAGE_SIZE (msg_id B m) (enc_msg B) (e_dec e)).
+  - reflexivity.
+  - exact Hd.
+  - exact Hid.
+  - exact Hs.
+Qed.
+Print Assumptions C19_read_message.
+
 (** Streamed PSBT, second sentence of the property: whenever the streamed decoder accepts,
     the decoded transaction is the encoded one, every input's previous output is the one the
     encoded PSBT designates, the per-input segwit flags are the reference flags, and no
